@@ -54,3 +54,22 @@ Theorem c18_size : forall cfg host signed parts,
   Forall (fun p => cookie_len p <= 4096) parts.
 Proof. exact session_parts_le_4096. Qed.
 Print Assumptions c18_size.
+
+(* ---- every cookie the proxy hands to a response comes out of that constructor ---- *)
+From V.Gen Require Surface.
+From V.Proofs Require SurfaceExpected.
+
+(* the inventory REGENERATED on this run from all non-test sources - http.Cookie literals, calls of
+   http.SetCookie, "Set-Cookie" header names, writes to cookie attribute fields, calls of the
+   constructor - is exactly the reviewed list ... *)
+Theorem c18_cookie_surface_pinned :
+  map fst SurfaceExpected.expected_cookie_surface = Surface.cookie_surface.
+Proof. vm_compute. reflexivity. Qed.
+Print Assumptions c18_cookie_surface_pinned.
+
+(* ... in which every entry is reviewed, and some emission site exists (the list is not vacuous) *)
+Theorem c18_cookie_surface_reviewed :
+  forallb (fun e => SurfaceExpected.cookie_reviewed (snd e)) SurfaceExpected.expected_cookie_surface = true /\
+  existsb SurfaceExpected.is_emission SurfaceExpected.expected_cookie_surface = true.
+Proof. split; vm_compute; reflexivity. Qed.
+Print Assumptions c18_cookie_surface_reviewed.
